@@ -47,10 +47,76 @@ pub fn run(ctx: &Ctx) -> Report {
     );
     let depth = ctx.tier.pick(5, 7);
     run_worlds(ctx, &mut rep, &worlds(ctx.tier), depth);
+    // concurrent writers: the size shown to the policy and its decision must be exact under every schedule
+    let fw = RollerK::Fixed { base: 0, count: 6, ext: "" };
+    let mk = |n: u64, pre: Option<u32>| World { append: true, trig: Trig::Size(n), roller: fw.clone(), pre, sizes: vec![], multibyte: false, restart: false };
+    let b = ctx.tier.pick(2usize, 3usize);
+    let hs = vec![
+        (RSched { world: mk(30, None), threads: 2, per_thread: 2, size: 24, chunks: 2 }, b),
+        (RSched { world: mk(24, Some(10)), threads: 2, per_thread: 2, size: 24, chunks: 1 }, b),
+        (RSched { world: mk(1100, None), threads: 2, per_thread: 2, size: 1500, chunks: 2 }, 2),
+    ];
+    run_scheds(ctx, &mut rep, &hs);
+    short_writes(&mut rep);
     rep.assume("nobody else writes to the log file; window of 2 archives (the roller itself is C07)");
     rep
 }
 
+/// Environment deviation: each write(2) of a short history accepts only part of its buffer once.
+/// The size accounting must follow the bytes the file really accepted.
+fn short_writes(rep: &mut Report) {
+    use crate::engine::fsfault::{self, Plan};
+    let w = World { append: true, trig: Trig::Size(4000), roller: RollerK::Fixed { base: 0, count: 2, ext: "" }, pre: Some(10), sizes: vec![], multibyte: false, restart: false };
+    let path = vec![Op::Append(1500), Op::Append(10), Op::Append(1500), Op::Append(1500)];
+    let run = |short: Vec<(usize, usize)>| -> (Result<(), (String, String)>, usize) {
+        let mut st = w.model_init();
+        let r = (|| {
+            // the session starts before the appender opens its file, so that the descriptor is tracked
+            fsfault::begin(&crate::engine::sandbox::scratch_root(), Plan { fail: vec![], snapshots: false, kinds: vec!["write"], short });
+            let mut real = w.real_init(&st)?;
+            fsfault::arm();
+            for op in &path {
+                let label = st.nops;
+                let next = w.model_step(&st, op);
+                w.real_step(&mut real, op, label, &next)?;
+                st = next;
+                w.compare(&real, &st)?;
+            }
+            Ok(())
+        })();
+        crate::engine::hooks::set_now(None);
+        let n = fsfault::end().map_or(0, |(c, _)| c.len());
+        (r, n)
+    };
+    let (r0, n) = run(vec![]);
+    if let Err((s, d)) = r0 {
+        rep.violation(s, d, serde_json::json!({"kind": "short-write", "k": null}));
+        return;
+    }
+    let mut runs = 0u64;
+    for k in 0..n {
+        for max in [1usize, 700] {
+            runs += 1;
+            if let (Err((s, d)), _) = run(vec![(k, max)]) {
+                rep.violation(format!("short-write:{}", s), format!("write #{} of the history {:?} accepts only {} bytes: {}", k, path, max, d), serde_json::json!({"kind": "short-write", "k": k, "max": max}));
+            }
+        }
+    }
+    rep.add("short_write_runs", runs);
+    rep.add("traces_validated_against_impl", runs);
+}
+
 pub fn replay(case: &serde_json::Value) -> Result<(), String> {
+    if case["kind"] == "schedule" {
+        return replay_sched_case(case);
+    }
+    if case["kind"] == "short-write" {
+        let mut rep = Report::new("model_checking");
+        short_writes(&mut rep);
+        return match rep.violations().first() {
+            Some(v) => Err(format!("{}: {}", v.signature, v.detail)),
+            None => Ok(()),
+        };
+    }
     replay_world_case(case)
 }
